@@ -176,6 +176,10 @@ func (f *function) diffEnv() (bool, string, diff.ValueDiff, error) {
 
 	var reason string
 	switch len(reasons) {
+	case 0:
+		// The environments differ in a part this version does not know: the record was written by
+		// another version, or is damaged.
+		return false, "environment changed", d, nil
 	case 1:
 		reason = reasons[0]
 	case 2:
